@@ -1,9 +1,10 @@
 ----------------------------- MODULE Emit_Tune -----------------------------
-(* Writes the request universe of Tune.tla as JSON (IOEnv.OUT): {"all": [...], "structural": [...], "pair": [...], "triples": [[...], ...]} *)
+(* Writes the request universe of Tune.tla as JSON (IOEnv.OUT): {"all": [...], "structural": [...], "pair": [...], "triples": [[...], ...], "catalogue": {"owners": {usr, grp, prj: [ids]}, "rows": [...]}} *)
 EXTENDS Tune, Json, IOUtils, SequencesExt
 VARIABLE x
 Univ == [all |-> SetToSeq(AllOps), structural |-> SetToSeq(StructuralOps), pair |-> SetToSeq(PairOps),
-         triples |-> SetToSeq({SetToSeq(t) : t \in TripleSeeds})]
+         triples |-> SetToSeq({SetToSeq(t) : t \in TripleSeeds}),
+         catalogue |-> [owners |-> CatalogueOwners, rows |-> SetToSeq(CatalogueRows)]]
 ASSUME JsonSerialize(IOEnv.OUT, Univ)
 Init == x = 0
 Next == x' = x /\ UNCHANGED x
